@@ -328,7 +328,18 @@ def _disjuncts(e: ast.expr) -> list[ast.expr]:
 
 def r2_digitize(ctx: Context) -> None:
     """Column i of the result is get_closest(param_grid[i], data[:, i]) for every column - read through the canonical loop binding,
-    so `range(data.shape[1])`, `enumerate(param_grid)`, `zip(param_grid, data.T)` and comprehension forms are the same rule instance."""
+    so `range(data.shape[1])`, `enumerate(param_grid)`, `zip(param_grid, data.T)` and comprehension forms are the same rule instance.
+    When the rule loses its footing half-way (a construct it cannot read), what it recorded before is withdrawn with it."""
+    mark = (len(ctx.obligations), len(ctx.findings))
+    try:
+        _r2_digitize(ctx)
+    except AnalysisError:
+        del ctx.obligations[mark[0]:]
+        del ctx.findings[mark[1]:]
+        raise
+
+
+def _r2_digitize(ctx: Context) -> None:
     f = ctx.func(DD)
     if len(f.params) < 2:
         raise AnalysisError("anchor vanished: digitize_data(data, param_grid)")
